@@ -166,14 +166,21 @@ Proof.
       * intros H. inversion H. assumption.
 Qed.
 
+(* a small hand-written bottom source for the examples (independent of the generated tables) *)
+Definition ex_defaults : source :=
+  {| src_kind := SrcDefaults;
+     src_vals := [(s"input.recursive", YBool false); (s"input.follow_symlinks", YBool false);
+                  (s"rst.headers", YList [YStr (s"#")]); (s"rst.module_path_separator", YStr (s"."))];
+     src_dir := None |}.
+
 Example resolve_first_nonvacuous :
   let a := {| src_kind := SrcArgs; src_vals := [(s"rst.prefix", YStr (s"p"))]; src_dir := None |} in
   let f := {| src_kind := SrcFile; src_vals := [(s"input.recursive", YBool true); (s"rst.prefix", YStr (s"q"))];
               src_dir := Some (s"/cfg") |} in
-  resolve [a; f; defaults_src] (s"input.recursive") = Some (YBool true, f)
-  /\ resolve [a; f; defaults_src] (s"rst.prefix") = Some (YStr (s"p"), a)
-  /\ resolve [a; f; defaults_src] (s"rst.headers") <> None
-  /\ resolve [a; f; defaults_src] (s"output.directory") = None.
+  resolve [a; f; ex_defaults] (s"input.recursive") = Some (YBool true, f)
+  /\ resolve [a; f; ex_defaults] (s"rst.prefix") = Some (YStr (s"p"), a)
+  /\ resolve [a; f; ex_defaults] (s"rst.headers") <> None
+  /\ resolve [a; f; ex_defaults] (s"output.directory") = None.
 Proof. vm_compute. repeat split; discriminate. Qed.
 
 (* ==================== K2: the highest-priority source wins ==================== *)
@@ -248,10 +255,10 @@ Example layering_nonvacuous :
   let u := {| src_kind := SrcUser; src_vals := [(s"input.recursive", YBool false);
                                                 (s"rst.module_path_separator", YStr (s"/"))];
               src_dir := Some (s"/home/u") |} in
-  effective (s"/w") false [a; f; u; defaults_src] (s"rst.prefix") (TOptString None) = COk (CStr (s"p"))
-  /\ effective (s"/w") false [a; f; u; defaults_src] (s"input.recursive") TBool = COk (CBool true)
-  /\ effective (s"/w") false [a; f; u; defaults_src] (s"rst.module_path_separator") (TString (s".")) = COk (CStr (s"/"))
-  /\ effective (s"/w") false [a; f; u; defaults_src] (s"input.follow_symlinks") TBool = COk (CBool false).
+  effective (s"/w") false [a; f; u; ex_defaults] (s"rst.prefix") (TOptString None) = COk (CStr (s"p"))
+  /\ effective (s"/w") false [a; f; u; ex_defaults] (s"input.recursive") TBool = COk (CBool true)
+  /\ effective (s"/w") false [a; f; u; ex_defaults] (s"rst.module_path_separator") (TString (s".")) = COk (CStr (s"/"))
+  /\ effective (s"/w") false [a; f; u; ex_defaults] (s"input.follow_symlinks") TBool = COk (CBool false).
 Proof. vm_compute. repeat split. Qed.
 
 (* ==================== K3: -s file first, then the arguments on top ==================== *)
@@ -446,8 +453,8 @@ Example exclude_union_nonvacuous :
               src_dir := None |} in
   let f := {| src_kind := SrcFile; src_vals := [(s"input.exclude_filters", YList [YStr (s"tests")])];
               src_dir := Some (s"/cfg") |} in
-  forallb (list_or_unset (s"input.exclude_filters")) [a; f; defaults_src] = true
-  /\ all_contents [a; f; defaults_src] (s"input.exclude_filters")
+  forallb (list_or_unset (s"input.exclude_filters")) [a; f; ex_defaults] = true
+  /\ all_contents [a; f; ex_defaults] (s"input.exclude_filters")
      = Some [YStr (s"build*"); YStr (s"x"); YStr (s"tests")].
 Proof. vm_compute. split; reflexivity. Qed.
 
@@ -536,10 +543,366 @@ Example output_dir_nonvacuous :
               src_dir := Some (s"/cfg/sub") |} in
   let u := {| src_kind := SrcUser; src_vals := [(s"output.directory", YStr (s"userout"))];
               src_dir := Some (s"/home/u") |} in
-  effective (s"/w/d") true [a; f; u; defaults_src] (s"output.directory") TOptFilename = COk (CStr (s"/cfg/out"))
-  /\ effective (s"/w/d") false [a; f; u; defaults_src] (s"output.directory") TOptFilename = COk (CStr (s"/w/out"))
-  /\ effective (s"/w/d") true [a; u; defaults_src] (s"output.directory") TOptFilename = COk (CStr (s"/home/u/userout"))
+  effective (s"/w/d") true [a; f; u; ex_defaults] (s"output.directory") TOptFilename = COk (CStr (s"/cfg/out"))
+  /\ effective (s"/w/d") false [a; f; u; ex_defaults] (s"output.directory") TOptFilename = COk (CStr (s"/w/out"))
+  /\ effective (s"/w/d") true [a; u; ex_defaults] (s"output.directory") TOptFilename = COk (CStr (s"/home/u/userout"))
   /\ effective (s"/w/d") true
        [{| src_kind := SrcArgs; src_vals := [(s"output.directory", YStr (s"o"))]; src_dir := None |}; f]
        (s"output.directory") TOptFilename = COk (CStr (s"/w/d/o")).
 Proof. vm_compute. repeat split. Qed.
+
+(* ==================== K5: dataclass fields = template keys of the section ==================== *)
+
+Lemma subset_str_spec : forall a b, subset_str a b = true -> forall x, In x a -> In x b.
+Proof.
+  intros a b H x Hx. unfold subset_str in H. rewrite forallb_forall in H.
+  apply mem_str_In. apply H. exact Hx.
+Qed.
+
+Lemma dataclass_sections_checked : forallb check_section dataclass_fields = true.
+Proof. vm_compute. reflexivity. Qed.
+
+Theorem dataclass_fields_match_template : forall sec fields,
+  In (sec, fields, true) dataclass_fields ->
+  forall k, In k (field_paths sec fields) <-> In k (section_keys sec).
+Proof.
+  intros sec fields Hin k.
+  assert (H := dataclass_sections_checked). rewrite forallb_forall in H.
+  specialize (H _ Hin). cbn [check_section] in H. apply andb_true_iff in H.
+  destruct H as [H1 H2]. split.
+  - apply (subset_str_spec _ _ H1).
+  - apply (subset_str_spec _ _ H2).
+Qed.
+
+(* the sections expanded by keyword are exactly input, output and rst *)
+Example dataclass_keyword_sections :
+  map (fun e => fst (fst e)) (filter (fun e => snd e) dataclass_fields) = [s"input"; s"output"; s"rst"].
+Proof. vm_compute. reflexivity. Qed.
+
+(* ==================== K6: the command line only sets what was given ==================== *)
+
+Lemma cli_dests_checked : forallb check_dest cli_table = true.
+Proof. vm_compute. reflexivity. Qed.
+
+Theorem cli_dests_are_option_paths : forall a,
+  In a cli_table ->
+  mem_str (a_dest a) non_option_dests = false ->
+  In (a_dest a) (map fst template).
+Proof.
+  intros a Hin Hn. assert (H := cli_dests_checked). rewrite forallb_forall in H.
+  specialize (H _ Hin). unfold check_dest in H. rewrite Hn in H. cbn [orb] in H.
+  apply mem_str_In. exact H.
+Qed.
+
+(* every argparse default is None, so an absent flag leaves its dest unset *)
+Theorem absent_flag_sets_nothing : forallb a_default_none cli_table = true.
+Proof. vm_compute. reflexivity. Qed.
+
+Definition dests_of (p : parsed) : list str :=
+  map fst (p_stored p) ++ p_flags p ++ map fst (p_appended p).
+
+(* key k is the dest of a table entry one of whose flags occurs among the tokens *)
+Definition from_flag (tbl : list cli_arg) (toks : list str) (k : str) : Prop :=
+  exists t a, In t toks /\ find_flag tbl t = Some a /\ a_dest a = k.
+
+Lemma from_flag_here : forall tbl t r a, find_flag tbl t = Some a -> from_flag tbl (t :: r) (a_dest a).
+Proof. intros tbl t r a H. exists t, a. repeat split; [left; reflexivity | exact H]. Qed.
+
+Lemma from_flag_skip1 : forall tbl t r k, from_flag tbl r k -> from_flag tbl (t :: r) k.
+Proof.
+  intros tbl t r k (t' & a & Hin & Hf & Hd). exists t', a. repeat split; [right; exact Hin | exact Hf | exact Hd].
+Qed.
+
+Lemma parse_go_dests : forall tbl n toks pst acc p,
+  length toks <= n ->
+  parse_go tbl toks pst acc = Some p ->
+  forall k, In k (dests_of p) -> In k (dests_of acc) \/ from_flag tbl toks k.
+Proof.
+  intros tbl. induction n as [|n IH]; intros toks pst acc p Hlen H k Hk.
+  - destruct toks as [|t r]; [|cbn [length] in Hlen; lia].
+    cbn [parse_go] in H. inversion H. subst. left. exact Hk.
+  - destruct toks as [|t r].
+    + cbn [parse_go] in H. inversion H. subst. left. exact Hk.
+    + cbn [length] in Hlen. cbn [parse_go] in H.
+      destruct (find_flag tbl t) as [a|] eqn:Ef.
+      * destruct (a_action a) eqn:Ea.
+        -- (* store *)
+           destruct r as [|v r']; [discriminate H|].
+           destruct (startswith (s"-") v); [discriminate H|].
+           cbn [length] in Hlen.
+           destruct (IH r' _ _ p ltac:(lia) H k Hk) as [Hin | Hfl].
+           ++ unfold dests_of in Hin. cbn [p_stored p_flags p_appended map fst] in Hin.
+              destruct Hin as [E | Hin].
+              ** right. rewrite <- E. apply from_flag_here. exact Ef.
+              ** left. exact Hin.
+           ++ right. apply from_flag_skip1. apply from_flag_skip1. exact Hfl.
+        -- (* store_true *)
+           destruct (IH r _ _ p ltac:(lia) H k Hk) as [Hin | Hfl].
+           ++ unfold dests_of in Hin. cbn [p_stored p_flags p_appended] in Hin.
+              apply in_app_or in Hin. destruct Hin as [Hin | Hin].
+              ** left. unfold dests_of. apply in_or_app. left. exact Hin.
+              ** apply in_app_or in Hin. destruct Hin as [Hin | Hin].
+                 --- apply in_app_or in Hin. destruct Hin as [Hin | Hin].
+                     +++ left. unfold dests_of. apply in_or_app. right. apply in_or_app. left. exact Hin.
+                     +++ destruct Hin as [E | []]. right. rewrite <- E. apply from_flag_here. exact Ef.
+                 --- left. unfold dests_of. apply in_or_app. right. apply in_or_app. right. exact Hin.
+           ++ right. apply from_flag_skip1. exact Hfl.
+        -- (* append *)
+           destruct r as [|v r']; [discriminate H|].
+           destruct (startswith (s"-") v); [discriminate H|].
+           cbn [length] in Hlen.
+           destruct (IH r' _ _ p ltac:(lia) H k Hk) as [Hin | Hfl].
+           ++ unfold dests_of in Hin. cbn [p_stored p_flags p_appended] in Hin.
+              apply in_app_or in Hin. destruct Hin as [Hin | Hin].
+              ** left. unfold dests_of. apply in_or_app. left. exact Hin.
+              ** apply in_app_or in Hin. destruct Hin as [Hin | Hin].
+                 --- left. unfold dests_of. apply in_or_app. right. apply in_or_app. left. exact Hin.
+                 --- rewrite map_app in Hin. apply in_app_or in Hin. destruct Hin as [Hin | Hin].
+                     +++ left. unfold dests_of. apply in_or_app. right. apply in_or_app. right. exact Hin.
+                     +++ cbn [map fst] in Hin. destruct Hin as [E | []].
+                         right. rewrite <- E. apply from_flag_here. exact Ef.
+           ++ right. apply from_flag_skip1. apply from_flag_skip1. exact Hfl.
+        -- discriminate H.
+      * destruct (startswith (s"-") t); [discriminate H|].
+        assert (Hpos : forall pst', parse_go tbl r pst'
+                   {| p_stored := p_stored acc; p_flags := p_flags acc;
+                      p_appended := p_appended acc; p_positional := p_positional acc ++ [t] |} = Some p ->
+                   In k (dests_of acc) \/ from_flag tbl (t :: r) k).
+        { intros pst' H'. destruct (IH r _ _ p ltac:(lia) H' k Hk) as [Hin | Hfl].
+          - left. exact Hin.
+          - right. apply from_flag_skip1. exact Hfl. }
+        destruct pst as [|[|[|pst]]]; try discriminate H; apply (Hpos _ H).
+Qed.
+
+Lemma dedup_keep_first_incl : forall l x, In x (dedup_keep_first l) -> In x l.
+Proof.
+  induction l as [|kv r IH]; intros x H.
+  - destruct H.
+  - unfold dedup_keep_first in H. cbn [fold_right] in H. destruct H as [E | H].
+    + left. exact E.
+    + apply filter_In in H. destruct H as [H _]. right. apply IH. exact H.
+Qed.
+
+Lemma nodup_str_incl : forall l x, In x (nodup_str l) -> In x l.
+Proof.
+  induction l as [|y r IH]; intros x H.
+  - destruct H.
+  - cbn [nodup_str] in H. destruct H as [E | H].
+    + left. exact E.
+    + apply filter_In in H. destruct H as [H _]. right. apply IH. exact H.
+Qed.
+
+Lemma args_source_dests : forall tbl p k v,
+  In (k, v) (src_vals (args_source tbl p)) -> In k (dests_of p).
+Proof.
+  intros tbl p k v H. unfold args_source in H. cbn [src_vals] in H. unfold dests_of.
+  apply in_app_or in H. destruct H as [H | H].
+  - apply in_or_app. left. apply in_map_iff in H. destruct H as (kv & E & Hin).
+    inversion E. subst. apply in_map. apply dedup_keep_first_incl. exact Hin.
+  - apply in_app_or in H. apply in_or_app. right. apply in_or_app. destruct H as [H | H].
+    + left. apply in_map_iff in H. destruct H as (d & E & Hin). inversion E. subst.
+      apply nodup_str_incl. exact Hin.
+    + right. apply in_map_iff in H. destruct H as (d & E & Hin). inversion E. subst.
+      apply nodup_str_incl. exact Hin.
+Qed.
+
+Lemma find_flag_some : forall tbl t a,
+  find_flag tbl t = Some a -> In a tbl /\ mem_str t (a_flags a) = true.
+Proof.
+  induction tbl as [|b r IH]; intros t a H; cbn [find_flag] in H.
+  - discriminate H.
+  - destruct (mem_str t (a_flags b)) eqn:E.
+    + inversion H. subst. split; [left; reflexivity | exact E].
+    + destruct (IH t a H) as [Hin Hm]. split; [right; exact Hin | exact Hm].
+Qed.
+
+(* every value in the SrcArgs source comes from a flag that occurs on the command line *)
+Theorem args_source_only_given_flags : forall tbl toks p,
+  parse_args tbl toks = Some p ->
+  forall k v, In (k, v) (src_vals (args_source tbl p)) ->
+  exists t a, In t toks /\ In a tbl /\ mem_str t (a_flags a) = true /\ a_dest a = k.
+Proof.
+  intros tbl toks p H k v Hin. unfold parse_args in H.
+  destruct (parse_go tbl toks 0 parsed_empty) as [p'|] eqn:Hgo; [|discriminate H].
+  destruct (p_positional p'); [discriminate H|]. inversion H. subst p'.
+  apply args_source_dests in Hin.
+  destruct (parse_go_dests tbl (length toks) toks 0 parsed_empty p (le_n _) Hgo k Hin) as [Hin0 | Hfl].
+  - destruct Hin0.
+  - destruct Hfl as (t & a & Ht & Hf & Hd). apply find_flag_some in Hf. destruct Hf as [Ha Hm].
+    exists t, a. repeat split; assumption.
+Qed.
+
+Corollary cli_source_only_given_flags : forall toks p,
+  parse_args cli_table toks = Some p ->
+  forall k v, In (k, v) (src_vals (args_source cli_table p)) ->
+  exists t a, In t toks /\ In a cli_table /\ mem_str t (a_flags a) = true /\ a_dest a = k.
+Proof. intros toks p. apply args_source_only_given_flags. Qed.
+
+(* the command line built by cminx_gen_rst, parsed: nothing but the given flags is set *)
+Example cli_parse_nonvacuous :
+  let vals := match parse_args cli_table [s"/src"; s"-r"; s"-p"; s"my prefix"; s"-e"; s"build*";
+                                          s"-e"; s"x"; s"-o"; s"/out"] with
+              | Some p => src_vals (args_source cli_table p)
+              | None => []
+              end in
+  assoc (s"output.directory") vals = Some (YStr (s"/out"))
+  /\ assoc (s"rst.prefix") vals = Some (YStr (s"my prefix"))
+  /\ assoc (s"input.recursive") vals = Some (YBool true)
+  /\ assoc (s"input.exclude_filters") vals = Some (YList [YStr (s"build*"); YStr (s"x")])
+  /\ length vals = 4.
+Proof. vm_compute. repeat split. Qed.
+
+(* M6, concrete instance only: the position of -o and -r among the options does not matter *)
+Example cli_order_irrelevant_example :
+  let vals toks := option_map (fun p => src_vals (args_source cli_table p)) (parse_args cli_table toks) in
+  let a := vals [s"/src"; s"-r"; s"-p"; s"my prefix"; s"-e"; s"build*"; s"-o"; s"/out"] in
+  let b := vals [s"/src"; s"-o"; s"/out"; s"-p"; s"my prefix"; s"-e"; s"build*"; s"-r"] in
+  match a, b with
+  | Some la, Some lb =>
+      forallb (fun k => match assoc k la, assoc k lb with
+                        | Some (YStr x), Some (YStr y) => str_eqb x y
+                        | Some (YBool x), Some (YBool y) => Bool.eqb x y
+                        | Some (YList x), Some (YList y) => Nat.eqb (length x) (length y)
+                        | None, None => true
+                        | _, _ => false
+                        end) (map fst template) && Nat.eqb (length la) (length lb)
+  | _, _ => false
+  end = true.
+Proof. vm_compute. reflexivity. Qed.
+
+(* ==================== K10: well-typed sources over the defaults never fail ==================== *)
+
+Lemma effective_ok_well_typed : forall cwd rc stack k ty,
+  (forall src v, In src stack -> assoc k (src_vals src) = Some v -> yval_has_type ty v = true) ->
+  (none_ok ty = true \/ exists src, In src stack /\ assoc k (src_vals src) <> None) ->
+  is_ok (effective cwd rc stack k ty) = true.
+Proof.
+  intros cwd rc stack k ty Hty Hdef. unfold effective.
+  destruct (resolve stack k) as [[v src]|] eqn:R.
+  - apply resolve_first_setting_source in R. destruct R as (pre & post & E & Hv & _).
+    apply right_type_accepted. apply (Hty src v); [|exact Hv].
+    rewrite E. apply in_or_app. right. left. reflexivity.
+  - rewrite none_ok_convert. destruct Hdef as [Hn | (src & Hin & Hset)]; [exact Hn|].
+    apply resolve_none in R. rewrite Forall_forall in R. exfalso. apply Hset. apply R. exact Hin.
+Qed.
+
+Lemma src_well_typed_spec : forall tmpl src k ty v,
+  src_well_typed tmpl src = true -> In (k, ty) tmpl ->
+  assoc k (src_vals src) = Some v -> yval_has_type ty v = true.
+Proof.
+  intros tmpl src k ty v H Hin Hv. unfold src_well_typed in H. rewrite forallb_forall in H.
+  specialize (H _ Hin). cbn [fst snd] in H. rewrite Hv in H. exact H.
+Qed.
+
+Theorem settings_total_on_well_typed : forall cwd upper,
+  forallb (src_well_typed template) upper = true ->
+  settings_of cwd (upper ++ [defaults_src]) template <> None.
+Proof.
+  intros cwd upper Hup. apply settings_of_ok_iff. apply forallb_forall. intros [k ty] Hin.
+  cbn [fst snd].
+  assert (Hd := defaults_checked). rewrite forallb_forall in Hd. specialize (Hd _ Hin).
+  unfold check_default in Hd. cbn [fst snd] in Hd.
+  rewrite forallb_forall in Hup.
+  apply effective_ok_well_typed.
+  - intros src v Hsrc Hv. apply in_app_or in Hsrc. destruct Hsrc as [Hsrc | [E | []]].
+    + apply (src_well_typed_spec template src k ty v (Hup _ Hsrc) Hin Hv).
+    + subst src. cbn [defaults_src src_vals] in Hv. rewrite Hv in Hd. exact Hd.
+  - destruct (assoc k yaml_defaults) as [v|] eqn:Ev.
+    + right. exists defaults_src. split.
+      * apply in_or_app. right. left. reflexivity.
+      * cbn [defaults_src src_vals]. rewrite Ev. discriminate.
+    + left. exact Hd.
+Qed.
+
+(* the converse direction of the typing rule: a wrong-typed value in the winning source makes
+   main() fail instead of falling back to a lower source or the default *)
+Theorem wrong_type_not_replaced : forall cwd pre src post k ty v,
+  In (k, ty) template ->
+  Forall (unset k) pre ->
+  assoc k (src_vals src) = Some v ->
+  yval_has_type ty v = false ->
+  ty <> TOptSeq \/ is_ystr v = false ->
+  settings_of cwd (pre ++ src :: post) template = None.
+Proof.
+  intros cwd pre src post k ty v Hin Hpre Hv Hty Hex.
+  destruct (settings_of cwd (pre ++ src :: post) template) eqn:E; [|reflexivity].
+  exfalso.
+  assert (Hne : settings_of cwd (pre ++ src :: post) template <> None) by (rewrite E; discriminate).
+  apply settings_of_ok_iff in Hne. rewrite forallb_forall in Hne. specialize (Hne _ Hin).
+  cbn [fst snd] in Hne.
+  rewrite (effective_highest_priority _ _ pre src post k ty v Hpre Hv) in Hne.
+  rewrite (wrong_type_rejected _ _ ty v src Hty Hex) in Hne. discriminate Hne.
+Qed.
+
+(* a source that sets every option of the template to a value of the right type *)
+Definition witness (ty : oty) : yval :=
+  match ty with
+  | TBool => YBool true
+  | TOptString _ | TString _ => YStr (s"x")
+  | TOptSeq => YList [YStr (s"build*")]
+  | TStrSeq => YStr (s"# * =")
+  | TOptFilename => YStr (s"out")
+  | TDict => YMap
+  end.
+Definition ex_full_source : source :=
+  {| src_kind := SrcFile; src_vals := map (fun kt => (fst kt, witness (snd kt))) template;
+     src_dir := Some (s"/cfg") |}.
+Definition ex_partial_source : source :=
+  {| src_kind := SrcArgs; src_vals := [(s"not.an.option", YInt 3)]; src_dir := None |}.
+
+Example settings_total_nonvacuous :
+  forallb (src_well_typed template) [ex_partial_source; ex_full_source] = true
+  /\ option_map (@length _) (settings_of (s"/w") ([ex_partial_source; ex_full_source] ++ [defaults_src]) template)
+     = Some (length template).
+Proof. vm_compute. split; reflexivity. Qed.
+
+(* and a wrong-typed value in any source above the defaults makes main() fail *)
+Example wrong_type_not_replaced_nonvacuous :
+  forallb (fun kt =>
+    match settings_of (s"/w")
+            [{| src_kind := SrcFile; src_vals := [(fst kt, YInt 3)]; src_dir := None |}; defaults_src]
+            template with
+    | None => true
+    | Some _ => false
+    end) template = true.
+Proof. vm_compute. reflexivity. Qed.
+
+(* ==== MAIN THEOREMS ====
+   K1  resolve_first_setting_source, resolve_none
+   K2  effective_highest_priority, cli_wins, sfile_wins_over_user, user_wins_over_defaults,
+       default_when_unset, default_value_when_unset
+   K3  stacking_order_is_file_then_args
+   K4  defaults_complete_and_well_typed, defaults_settings_total
+   K5  dataclass_fields_match_template
+   K6  cli_dests_are_option_paths, absent_flag_sets_nothing, args_source_only_given_flags
+   K7  wrong_type_rejected, C16_exclude_filters_string_refuted, wrong_type_accepted_only_optseq_str,
+       right_type_accepted, wrong_type_not_replaced
+   K8  exclude_is_union, exclude_nothing_overridden, exclude_union_only_from_sources
+   K9  resolve_filename_abs, resolve_filename_rel_cwd, resolve_filename_rel_config,
+       resolve_filename_rel_config_nofile, resolve_filename_spec, output_dir_resolution
+   K10 settings_total_on_well_typed
+*)
+Print Assumptions resolve_first_setting_source.
+Print Assumptions resolve_none.
+Print Assumptions effective_highest_priority.
+Print Assumptions cli_wins.
+Print Assumptions sfile_wins_over_user.
+Print Assumptions user_wins_over_defaults.
+Print Assumptions default_when_unset.
+Print Assumptions default_value_when_unset.
+Print Assumptions stacking_order_is_file_then_args.
+Print Assumptions defaults_complete_and_well_typed.
+Print Assumptions defaults_settings_total.
+Print Assumptions dataclass_fields_match_template.
+Print Assumptions cli_dests_are_option_paths.
+Print Assumptions absent_flag_sets_nothing.
+Print Assumptions args_source_only_given_flags.
+Print Assumptions wrong_type_rejected.
+Print Assumptions C16_exclude_filters_string_refuted.
+Print Assumptions wrong_type_accepted_only_optseq_str.
+Print Assumptions wrong_type_not_replaced.
+Print Assumptions exclude_is_union.
+Print Assumptions exclude_nothing_overridden.
+Print Assumptions output_dir_resolution.
+Print Assumptions resolve_filename_spec.
+Print Assumptions settings_total_on_well_typed.
